@@ -71,3 +71,28 @@ pub fn route_contains_loop(
         .collect::<Result<Vec<_>, _>>()?;
     Ok(src_vertices.iter().unique().collect_vec().len() < src_vertices.len())
 }
+
+/// true if the frontier model permits every edge of the route when reached from its
+/// predecessor (in travel order, with the state reported at the predecessor)
+pub fn route_is_permitted(route: &[EdgeTraversal], si: &SearchInstance) -> bool {
+    let Ok(initial_state) = si.state_model.initial_state() else {
+        return false;
+    };
+    let mut prev_state = initial_state.as_slice();
+    let mut prev_edge = None;
+    for edge_traversal in route.iter() {
+        let Ok(edge) = si.directed_graph.get_edge(&edge_traversal.edge_id) else {
+            return false;
+        };
+        match si
+            .frontier_model
+            .valid_frontier(edge, prev_state, prev_edge, &si.state_model)
+        {
+            Ok(true) => {}
+            _ => return false,
+        }
+        prev_state = edge_traversal.result_state.as_slice();
+        prev_edge = Some(edge);
+    }
+    true
+}
